@@ -307,6 +307,14 @@ def check(pid, tier):
         import traceback
 
         crashes.append(f"s3resolve: {type(e).__name__}: {e}\n" + traceback.format_exc()[-500:])
+    # S11: a named tuple's engine option is not handed to its members (they keep their own customization levels);
+    # S12: get_config() sees every option the class's Config declares, however the Config is written
+    from . import s11engine, s12config
+
+    for m_ in (s11engine, s12config):
+        o_, c_ = m_.obligations(pid)
+        obs += o_
+        crashes += c_
     return runner.finish(
         pid, tier, obs, t0,
         technique="RESOLVE (lexicographic minimum over field option, key specificity, level) computed from the schema by an independent resolver; the generated from_dict/to_dict unit (default and call-dialect, mixin and codec holder) is proved by symbolic execution (pysym, z3) to apply exactly the winning registration for all inputs",
@@ -314,7 +322,7 @@ def check(pid, tier):
         extra_cov={"points": len(pts), "explanation": "every single registration slot x kind, every pair of slots, sampled larger subsets (fixed sample) and the full sets; one obligation per compiled unit and direction"},
         trusted={"marker functions are uninterpreted; the callee's identity is what is proved",
                  "S5 first-match rule (DESIGN 2.5): a loop nest whose body returns f(element) or preserves the invariant returns f(first contributing element)",
-                 "S3/S4: getattr(ns, option, MISSING) and dict.get are total functions; get_config / is_hashable / is_dialect_subclass are pure and do not raise"},
+                 "S3/S4: getattr(ns, option, MISSING) and dict.get are total functions; is_hashable / is_dialect_subclass are pure and do not raise; get_config is pure, its value is the subject of S12"},
         functions=["pack.get_overridden_serialization_method / unpack.get_overridden_deserialization_method / CodeBuilder.iter_serialization_strategies (through the code they make the generator emit)",
                    "builder.py:CodeBuilder.get_dialect_or_config_option (S3, real AST)", "builder.py:CodeBuilder.iter_serialization_strategies + private generator (S4, real AST, ghost yield list)",
                    "pack.py:get_overridden_serialization_method, unpack.py:get_overridden_deserialization_method (S5: prologue + loop-body Hoare triple, real AST)"],
